@@ -54,7 +54,7 @@ def classify_entity_name(iToken, lObjects):
     iCurrent = utils.find_next_token(iToken, lObjects)
     sTokenValue = lObjects[iCurrent].get_value()
     if "." in sTokenValue:
-        lTokenValue = sTokenValue.split(".")
+        lTokenValue = sTokenValue.split(".", 1)
         lObjects[iCurrent] = token.library_name(lTokenValue[0])
         lObjects.insert(iCurrent + 1, token.dot("."))
         lObjects.insert(iCurrent + 2, token.entity_name(lTokenValue[1]))
